@@ -393,3 +393,37 @@ def v_reinit_failures(ctx, rng, ncases=4):
                               % (sc.sid, fr["findex"], worst)))
                 break
     return n, fails
+
+
+# ----------------------------------------------------------------------------- column systems that are not equally determined
+def scen_unequal(rng, sid, typ, n, ks, nf, snf, strk, noisy):
+    """UE14 / E12 with n columns: a through between every pair of ports and ks[p] single reflects on port
+    p + 1.  A reflect on port p adds one equation to the system of column p only, so the column systems
+    have DIFFERENT equation counts: with 2 n + 1 unknowns per column, a column is exactly determined
+    or over-determined depending on its own ks[p] -- in any orientation (which columns are the
+    over-determined ones is the caller's choice).  With the noise model on, _vnacal_new_solve_init
+    allocates a V matrix for the over-determined columns only."""
+    em = G.ErrorModel(rng, typ, n, nf)
+    sc = G.Scenario(sid, typ, n, G.default_freqs(nf))
+    sc.em = em
+    nrng = random.Random(rng.getrandbits(32))
+
+    def meas(full):
+        ms = [em.measure(full, f) for f in range(nf)]
+        if noisy:
+            ms = [[[z + G.cgauss(nrng, math.sqrt(snf * snf + strk * strk * abs(z) ** 2)) for z in row] for row in m]
+                  for m in ms]
+        return ms
+    for p in range(1, n + 1):
+        for q in range(p + 1, n + 1):
+            sc.add_through(p, q, meas(G._embed(n, (p, q), [[0, 1], [1, 0]], rng)))
+    for p in range(1, n + 1):
+        for k in range(ks[p - 1]):
+            g = G.rand_reflect(rng, k)
+            sc.add_single(sc.known([g] * nf), p, meas(G._embed(n, (p,), [[g]], rng)))
+    sc.cmd(merror_line(sc.freqs, snf, strk))
+    sc.cmd("pvalue 1e-12")
+    sc.solve()
+    sc.meta.update({"family": "vmat_unequal", "type": typ, "n": n, "ks": list(ks), "noisy": noisy,
+                    "sigma_nf": snf, "sigma_tr": strk})
+    return sc
